@@ -16,6 +16,8 @@ pub struct Inode {
     pub nlink: u32,
     /// modification time (unix seconds on the simulated clock; not part of the disk digest)
     pub mtime: i64,
+    /// Some(target): a symbolic link (never a directory, no data)
+    pub link: Option<String>,
 }
 
 #[derive(Clone, Debug, PartialEq, Eq)]
@@ -35,6 +37,7 @@ pub enum Op {
     Write { ino: u64, off: u64, data: Vec<u8> },
     Rename { from: String, to: String },
     Link { from: String, to: String },
+    Symlink { path: String, target: String },
     Unlink { path: String },
     Rmdir { path: String },
     Chmod { ino: u64, mode: u32 },
@@ -51,6 +54,7 @@ impl Op {
             Op::Write { .. } => "write",
             Op::Rename { .. } => "rename",
             Op::Link { .. } => "link",
+            Op::Symlink { .. } => "symlink",
             Op::Unlink { .. } => "unlink",
             Op::Rmdir { .. } => "rmdir",
             Op::Chmod { .. } => "chmod",
@@ -66,6 +70,7 @@ impl Op {
             Op::Write { ino, off, data } => format!("write ino={} off={} len={}", ino, off, data.len()),
             Op::Rename { from, to } => format!("rename {} -> {}", from, to),
             Op::Link { from, to } => format!("link {} -> {}", from, to),
+            Op::Symlink { path, target } => format!("symlink {} -> {}", path, target),
             Op::Unlink { path } => format!("unlink {}", path),
             Op::Rmdir { path } => format!("rmdir {}", path),
             Op::Chmod { ino, mode } => format!("chmod ino={} {:o}", ino, mode),
@@ -111,7 +116,7 @@ impl Default for Disk {
 impl Disk {
     pub fn new() -> Disk {
         let mut d = Disk { inodes: BTreeMap::new(), names: BTreeMap::new(), clock: 0, next_ino: 2 };
-        d.inodes.insert(1, Inode { is_dir: true, mode: 0o755, data: vec![], nlink: 2, mtime: 0 });
+        d.inodes.insert(1, Inode { is_dir: true, mode: 0o755, data: vec![], nlink: 2, mtime: 0, link: None });
         d.names.insert(ROOT.to_string(), 1);
         d
     }
@@ -120,13 +125,80 @@ impl Disk {
         self.names.get(path).copied()
     }
 
+    /// Content of the regular file `path` names (symbolic links are followed, as open() would).
     pub fn file(&self, path: &str) -> Option<&[u8]> {
-        let ino = self.lookup(path)?;
+        let real = self.walk(path, true).ok()?;
+        let ino = self.lookup(&real)?;
         let i = self.inodes.get(&ino)?;
-        if i.is_dir {
+        if i.is_dir || i.link.is_some() {
             None
         } else {
             Some(&i.data)
+        }
+    }
+
+    pub fn is_symlink(&self, path: &str) -> bool {
+        self.lookup(path).and_then(|i| self.inodes.get(&i)).map(|i| i.link.is_some()).unwrap_or(false)
+    }
+
+    /// Bootstrap helper: make `path` a symbolic link to `target` (parents are created, an existing name is replaced).
+    pub fn put_symlink(&mut self, path: &str, target: &str) {
+        let parent = parent_of(path).to_string();
+        self.mkdir_p(&parent);
+        self.remove_file_quietly(path);
+        let ino = self.next_ino;
+        self.next_ino += 1;
+        self.inodes.insert(ino, Inode { is_dir: false, mode: 0o777, data: vec![], nlink: 1, mtime: 0, link: Some(target.to_string()) });
+        self.names.insert(path.to_string(), ino);
+    }
+
+    /// Path resolution as the kernel does it: symbolic links in every component but the last are
+    /// followed, the last one only with `follow_last`. Returns the path the name stands for (it need
+    /// not exist). ELOOP after 40 links; a link that leads out of /simfs resolves to nothing (ENOENT).
+    pub fn walk(&self, path: &str, follow_last: bool) -> Result<String, i32> {
+        if !self.inodes.values().any(|i| i.link.is_some()) {
+            return Ok(path.to_string());
+        }
+        let mut todo: std::collections::VecDeque<String> = path.split('/').filter(|c| !c.is_empty()).map(|c| c.to_string()).collect();
+        let mut cur = String::new();
+        let mut hops = 0;
+        while let Some(c) = todo.pop_front() {
+            if c == "." {
+                continue;
+            }
+            if c == ".." {
+                cur = match cur.rfind('/') {
+                    Some(i) => cur[..i].to_string(),
+                    None => String::new(),
+                };
+                continue;
+            }
+            let next = format!("{}/{}", cur, c);
+            let is_last = todo.is_empty();
+            if !is_last || follow_last {
+                if let Some(t) = self.lookup(&next).and_then(|i| self.inodes.get(&i)).and_then(|i| i.link.clone()) {
+                    hops += 1;
+                    if hops > 40 {
+                        return Err(libc::ELOOP);
+                    }
+                    if t.is_empty() {
+                        return Err(libc::ENOENT);
+                    }
+                    if t.starts_with('/') {
+                        cur.clear();
+                    }
+                    for comp in t.split('/').filter(|c| !c.is_empty()).rev() {
+                        todo.push_front(comp.to_string());
+                    }
+                    continue;
+                }
+            }
+            cur = next;
+        }
+        if cur == ROOT || cur.starts_with("/simfs/") {
+            Ok(cur)
+        } else {
+            Err(libc::ENOENT)
         }
     }
 
@@ -137,7 +209,7 @@ impl Disk {
         for (p, ino) in &self.names {
             if let Some(rest) = p.strip_prefix(&prefix) {
                 let i = &self.inodes[ino];
-                if !i.is_dir {
+                if !i.is_dir && i.link.is_none() {
                     out.push((rest.to_string(), i.data.clone()));
                 }
             }
@@ -154,7 +226,7 @@ impl Disk {
             if self.lookup(&cur).is_none() {
                 let ino = self.next_ino;
                 self.next_ino += 1;
-                self.inodes.insert(ino, Inode { is_dir: true, mode: 0o755, data: vec![], nlink: 2, mtime: 0 });
+                self.inodes.insert(ino, Inode { is_dir: true, mode: 0o755, data: vec![], nlink: 2, mtime: 0, link: None });
                 self.names.insert(cur.clone(), ino);
             }
         }
@@ -162,7 +234,7 @@ impl Disk {
 
     /// Every regular file on the disk: (path, content), in path order.
     pub fn all_files(&self) -> Vec<(String, Vec<u8>)> {
-        self.names.iter().filter(|(_, ino)| !self.inodes[*ino].is_dir).map(|(p, ino)| (p.clone(), self.inodes[ino].data.clone())).collect()
+        self.names.iter().filter(|(_, ino)| !self.inodes[*ino].is_dir && self.inodes[*ino].link.is_none()).map(|(p, ino)| (p.clone(), self.inodes[ino].data.clone())).collect()
     }
 
     /// Remove a file by path (bootstrap helper, not journalled).
@@ -187,7 +259,8 @@ impl Disk {
     }
 
     pub fn put_file(&mut self, path: &str, data: &[u8]) {
-        // Test/bootstrap helper: mkdir -p parent, then create/replace the file.
+        // Test/bootstrap helper: mkdir -p parent, then create/replace the file (through links, as open() would).
+        let path = &self.walk(path, true).unwrap_or_else(|_| path.to_string());
         let parent = parent_of(path).to_string();
         self.mkdir_p(&parent);
         if let Some(ino) = self.lookup(path) {
@@ -195,7 +268,7 @@ impl Disk {
         } else {
             let ino = self.next_ino;
             self.next_ino += 1;
-            self.inodes.insert(ino, Inode { is_dir: false, mode: 0o644, data: data.to_vec(), nlink: 1, mtime: 0 });
+            self.inodes.insert(ino, Inode { is_dir: false, mode: 0o644, data: data.to_vec(), nlink: 1, mtime: 0, link: None });
             self.names.insert(path.to_string(), ino);
         }
     }
@@ -208,7 +281,7 @@ impl Disk {
         self.mkdir_p(&parent);
         let ino = self.next_ino;
         self.next_ino += 1;
-        self.inodes.insert(ino, Inode { is_dir: true, mode: 0o700, data: vec![], nlink: 2, mtime: 0 });
+        self.inodes.insert(ino, Inode { is_dir: true, mode: 0o700, data: vec![], nlink: 2, mtime: 0, link: None });
         self.names.insert(path.to_string(), ino);
     }
 
@@ -228,13 +301,13 @@ impl Disk {
             Op::Mkdir { path, mode } => {
                 let ino = self.next_ino;
                 self.next_ino += 1;
-                self.inodes.insert(ino, Inode { is_dir: true, mode: *mode, data: vec![], nlink: 2, mtime: 0 });
+                self.inodes.insert(ino, Inode { is_dir: true, mode: *mode, data: vec![], nlink: 2, mtime: 0, link: None });
                 self.names.insert(path.clone(), ino);
             }
             Op::Create { path, mode } => {
                 let ino = self.next_ino;
                 self.next_ino += 1;
-                self.inodes.insert(ino, Inode { is_dir: false, mode: *mode, data: vec![], nlink: 1, mtime: self.clock });
+                self.inodes.insert(ino, Inode { is_dir: false, mode: *mode, data: vec![], nlink: 1, mtime: self.clock, link: None });
                 self.names.insert(path.clone(), ino);
             }
             Op::Truncate { ino, len } => {
@@ -282,6 +355,12 @@ impl Disk {
                         i.nlink += 1;
                     }
                 }
+            }
+            Op::Symlink { path, target } => {
+                let ino = self.next_ino;
+                self.next_ino += 1;
+                self.inodes.insert(ino, Inode { is_dir: false, mode: 0o777, data: vec![], nlink: 1, mtime: self.clock, link: Some(target.clone()) });
+                self.names.insert(path.clone(), ino);
             }
             Op::Unlink { path } | Op::Rmdir { path } => {
                 if let Some(ino) = self.names.remove(path) {
@@ -362,6 +441,10 @@ impl Disk {
             h = crate::prng::fnv64_add(h, p.as_bytes());
             let i = &self.inodes[ino];
             h = crate::prng::fnv64_add(h, &[i.is_dir as u8]);
+            if let Some(t) = &i.link {
+                h = crate::prng::fnv64_add(h, b"->");
+                h = crate::prng::fnv64_add(h, t.as_bytes());
+            }
             h = crate::prng::fnv64_add(h, &(i.data.len() as u64).to_le_bytes());
             h = crate::prng::fnv64_add(h, &i.data);
         }
@@ -566,6 +649,8 @@ impl SimFs {
         let acc = flags & libc::O_ACCMODE;
         let wants_write = acc == libc::O_WRONLY || acc == libc::O_RDWR;
         let creat = flags & libc::O_CREAT != 0;
+        let nofollow = flags & libc::O_NOFOLLOW != 0 || (creat && flags & libc::O_EXCL != 0);
+        let path = &self.disk.walk(path, !nofollow)?;
         if path != ROOT {
             self.check_parent(path)?;
         }
@@ -579,6 +664,10 @@ impl SimFs {
             Some(ino) => {
                 if creat && flags & libc::O_EXCL != 0 {
                     return Err(libc::EEXIST);
+                }
+                if self.disk.inodes[&ino].link.is_some() {
+                    // only reached with O_NOFOLLOW
+                    return Err(if flags & libc::O_DIRECTORY != 0 { libc::ENOTDIR } else { libc::ELOOP });
                 }
                 let is_dir = self.disk.inodes[&ino].is_dir;
                 if !is_dir && !wants_write {
@@ -770,8 +859,15 @@ impl SimFs {
 
     fn stat_ino(&self, ino: u64) -> R<Stat> {
         let i = self.disk.inodes.get(&ino).ok_or(libc::ENOENT)?;
-        let ty = if i.is_dir { libc::S_IFDIR } else { libc::S_IFREG };
-        Ok(Stat { ino, mode: ty | i.mode, size: i.data.len() as u64, nlink: i.nlink, mtime: i.mtime })
+        let ty = if i.is_dir {
+            libc::S_IFDIR
+        } else if i.link.is_some() {
+            libc::S_IFLNK
+        } else {
+            libc::S_IFREG
+        };
+        let size = i.link.as_ref().map(|t| t.len() as u64).unwrap_or(i.data.len() as u64);
+        Ok(Stat { ino, mode: ty | i.mode, size, nlink: i.nlink, mtime: i.mtime })
     }
 
     pub fn fstat(&mut self, fd: i32) -> R<Stat> {
@@ -781,15 +877,58 @@ impl SimFs {
     }
 
     pub fn stat(&mut self, path: &str) -> R<Stat> {
+        self.stat_opt(path, true)
+    }
+
+    pub fn lstat(&mut self, path: &str) -> R<Stat> {
+        self.stat_opt(path, false)
+    }
+
+    fn stat_opt(&mut self, path: &str, follow: bool) -> R<Stat> {
         self.ops_total += 1;
+        let path = &self.disk.walk(path, follow)?;
         match self.disk.lookup(path) {
             Some(ino) => self.stat_ino(ino),
             None => Err(self.missing_errno(path)),
         }
     }
 
+    pub fn symlink(&mut self, target: &str, path: &str) -> R<()> {
+        self.ops_total += 1;
+        let path = &self.disk.walk(path, false)?;
+        if target.is_empty() {
+            return Err(libc::ENOENT);
+        }
+        self.check_parent(path)?;
+        if self.disk.lookup(path).is_some() {
+            return Err(libc::EEXIST);
+        }
+        if let Some(e) = self.faults.open_write_errno {
+            self.fire("open_write_error");
+            return Err(e);
+        }
+        self.record(Op::Symlink { path: path.to_string(), target: target.to_string() });
+        Ok(())
+    }
+
+    pub fn readlink(&mut self, path: &str) -> R<String> {
+        self.ops_total += 1;
+        let path = &self.disk.walk(path, false)?;
+        let ino = self.resolve(path)?;
+        self.disk.inodes[&ino].link.clone().ok_or(libc::EINVAL)
+    }
+
+    /// realpath(3): every link followed, the result must exist.
+    pub fn realpath(&mut self, path: &str) -> R<String> {
+        self.ops_total += 1;
+        let real = self.disk.walk(path, true)?;
+        self.resolve(&real)?;
+        Ok(real)
+    }
+
     pub fn mkdir(&mut self, path: &str, mode: u32) -> R<()> {
         self.ops_total += 1;
+        let path = &self.disk.walk(path, false)?;
         if self.disk.lookup(path).is_some() {
             return Err(libc::EEXIST);
         }
@@ -804,6 +943,7 @@ impl SimFs {
 
     pub fn rmdir(&mut self, path: &str) -> R<()> {
         self.ops_total += 1;
+        let path = &self.disk.walk(path, false)?;
         let ino = self.resolve(path)?;
         if !self.disk.inodes[&ino].is_dir {
             return Err(libc::ENOTDIR);
@@ -818,6 +958,7 @@ impl SimFs {
 
     pub fn unlink(&mut self, path: &str) -> R<()> {
         self.ops_total += 1;
+        let path = &self.disk.walk(path, false)?;
         let ino = self.resolve(path)?;
         if self.disk.inodes[&ino].is_dir {
             return Err(libc::EISDIR);
@@ -828,8 +969,10 @@ impl SimFs {
 
     pub fn rename(&mut self, from: &str, to: &str, noreplace: bool) -> R<()> {
         self.ops_total += 1;
-        // the kernel walks both parent paths before it looks the last components up
+        // the kernel walks both parent paths (first the source's) before it looks the last components up
+        let from = &self.disk.walk(from, false)?;
         self.check_parent(from)?;
+        let to = &self.disk.walk(to, false)?;
         self.check_parent(to)?;
         let ino = self.resolve(from)?;
         if to.starts_with(&format!("{}/", from)) {
@@ -857,6 +1000,12 @@ impl SimFs {
             if tino == ino {
                 return Ok(());
             }
+            if tdir {
+                let prefix = format!("{}/", to);
+                if self.disk.names.keys().any(|p| p.starts_with(&prefix)) {
+                    return Err(libc::ENOTEMPTY);
+                }
+            }
         }
         self.record(Op::Rename { from: from.to_string(), to: to.to_string() });
         Ok(())
@@ -864,7 +1013,9 @@ impl SimFs {
 
     pub fn link(&mut self, from: &str, to: &str) -> R<()> {
         self.ops_total += 1;
+        let from = &self.disk.walk(from, false)?;
         let ino = self.resolve(from)?;
+        let to = &self.disk.walk(to, false)?;
         self.check_parent(to)?;
         if self.disk.lookup(to).is_some() {
             return Err(libc::EEXIST);
@@ -878,6 +1029,7 @@ impl SimFs {
 
     pub fn chmod(&mut self, path: &str, mode: u32) -> R<()> {
         self.ops_total += 1;
+        let path = &self.disk.walk(path, true)?;
         let ino = self.resolve(path)?;
         if self.disk.inodes[&ino].mode != mode & 0o7777 {
             self.record(Op::Chmod { ino, mode: mode & 0o7777 });
@@ -911,6 +1063,7 @@ impl SimFs {
 
     pub fn truncate(&mut self, path: &str, len: u64) -> R<()> {
         self.ops_total += 1;
+        let path = &self.disk.walk(path, true)?;
         let ino = self.resolve(path)?;
         if self.disk.inodes[&ino].is_dir {
             return Err(libc::EISDIR);
@@ -945,6 +1098,7 @@ impl SimFs {
 
     pub fn access(&mut self, path: &str) -> R<()> {
         self.ops_total += 1;
+        let path = &self.disk.walk(path, true)?;
         self.resolve(path).map(|_| ())
     }
 }
